@@ -23,6 +23,8 @@ def one(sid):
     d = os.path.join(ROOT, "seeded", sid)
     meta = json.load(open(os.path.join(d, "meta.json")))
     prop = meta["property"]
+    if meta.get("obsolete"):
+        return sid, prop, "OBSOLETE", meta["obsolete"][:80]
     patch = os.path.join(d, "patch.diff")
     wt = "/tmp/seeded-wt-%s" % sid
     work = "/tmp/seeded-work-%s" % sid
